@@ -58,15 +58,15 @@ theorem list_len5 {α : Type} (l : List α) (h : l.length = 5) : ∃ a b c d e, 
 
 /-! ### the cluster parser in three parts -/
 
-/-- the version decision of `read`: keep `m_version` if already decided, else decide from the byte count -/
-def decideVersion (version : Option Nat) (nb : Nat) : P Nat :=
+/-- the version decision of `read`: keep `m_version` if already decided, else decide from the byte count
+minus what has been consumed since the byte-count word (class version 2 bytes, TObject `tobj` bytes) -/
+def decideVersion (version : Option Nat) (nb tobj : Nat) : P Nat :=
   match version with
   | some v => pure v
-  | none => if nb = 96 then pure 0 else if nb = 88 then pure 1 else fail
+  | none => if nb = 2 + tobj + 84 then pure 0 else if nb = 2 + tobj + 76 then pure 1 else fail
 
-/-- the part of `readCluster` after the version decision: TObject and the members -/
-def clusterTail (v : Nat) : P (Cluster × Nat) := do
-  skipTObject
+/-- the part of `readCluster` after the version decision: the members -/
+def clusterMembers (v : Nat) : P (Cluster × Nat) := do
   let ints ← times u32 5
   let d1 ← times u64 2
   let dy ← (if v = 0 then times u64 1 else pure [])
@@ -77,43 +77,81 @@ def clusterTail (v : Nat) : P (Cluster × Nat) := do
 
 theorem readCluster_eq (ver : Option Nat) : readCluster ver =
     (skipObjHeader >>= fun _ => readNBytes >>= fun nb => skip 2 >>= fun _ =>
-      decideVersion ver nb >>= fun v => clusterTail v) := rfl
+      skipTObjectLen >>= fun tobj => decideVersion ver nb tobj >>= fun v => clusterMembers v) := rfl
 
-theorem clusterTail_eq (v : Nat) : clusterTail v =
-    (skipTObject >>= fun _ => times u32 5 >>= fun ints => times u64 2 >>= fun d1 =>
+theorem clusterMembers_eq (v : Nat) : clusterMembers v =
+    (times u32 5 >>= fun ints => times u64 2 >>= fun d1 =>
       (if v = 0 then times u64 1 else pure []) >>= fun dy => times u64 2 >>= fun d2 =>
         times u32 2 >>= fun cf => times u32 4 >>= fun st =>
           pure ({ ints := ints, doubles := d1 ++ dy ++ d2, clusterFlag := cf, stripID := st }, v)) := rfl
 
-theorem decideVersion_ok (ver : Option Nat) (v nb : Nat) (hver : ver = none ∨ ver = some v)
-    (hnb : (v = 0 ∧ nb = 96) ∨ (v = 1 ∧ nb = 88)) : decideVersion ver nb = pure v := by
+/-- bytes of the members of layout `v`: 5 × 4 + 8 × (5 or 4) + 2 × 4 + 4 × 4 -/
+def memberBytes (v : Nat) : Nat := if v = 0 then 84 else 76
+
+/-- bytes of a serialised TObject base -/
+def tobjLen (bits : Nat) : Nat := if bits &&& kIsReferenced ≠ 0 then 12 else 10
+
+theorem decideVersion_ok (ver : Option Nat) (v nb t : Nat) (hv : v = 0 ∨ v = 1)
+    (hver : ver = none ∨ ver = some v) (hnb : nb = 2 + t + memberBytes v) :
+    decideVersion ver nb t = pure v := by
   rcases hver with rfl | rfl
-  · rcases hnb with ⟨rfl, rfl⟩ | ⟨rfl, rfl⟩
-    · rfl
-    · rfl
+  · rcases hv with rfl | rfl
+    · have h : nb = 2 + t + 84 := hnb
+      show (if nb = 2 + t + 84 then pure 0 else if nb = 2 + t + 76 then pure 1 else fail) = (pure 0 : P Nat)
+      rw [if_pos h]
+    · have h : nb = 2 + t + 76 := hnb
+      show (if nb = 2 + t + 84 then pure 0 else if nb = 2 + t + 76 then pure 1 else fail) = (pure 1 : P Nat)
+      rw [if_neg (by omega), if_pos h]
   · rfl
 
-/-- header part: object header, byte-count word, class-version word (abstract words) -/
-theorem readCluster_words (ver : Option Nat) (v : Nat) (hdr w s tail : List Nat)
-    (hh : skipObjHeader.run (hdr ++ (w ++ (s ++ tail))) = some ((), w ++ (s ++ tail)))
+theorem skipTObjectLen_eq : skipTObjectLen =
+    (skip 2 >>= fun _ => skip 4 >>= fun _ => u32 >>= fun bits =>
+      if bits &&& kIsReferenced ≠ 0 then (skip 2 >>= fun _ => pure 12) else pure 10) := rfl
+
+set_option linter.unusedVariables false in -- version, uid, pidf ranges: those fields are skipped, not decoded
+/-- a TObject base is skipped exactly, referenced or not, and its length is reported -/
+theorem skipTObjectLen_enc (version uid bits pidf : Nat) (rest : List Nat) (h1 : version < 65536)
+    (h2 : uid < 4294967296) (h3 : bits < 4294967296) (h4 : pidf < 65536) :
+    skipTObjectLen.run (encTObject version uid bits pidf ++ rest) = some (tobjLen bits, rest) := by
+  simp only [encTObject, List.append_assoc]
+  rw [skipTObjectLen_eq, bind_ok _ _ _ _ _ (skip_append' 2 _ _ (be_length' _ _)),
+    bind_ok _ _ _ _ _ (skip_append' 4 _ _ (be_length' _ _)),
+    bind_ok _ _ _ _ _ (u32_be bits _ h3)]
+  unfold tobjLen
+  by_cases hb : bits &&& kIsReferenced ≠ 0
+  · rw [if_pos hb, if_pos hb, if_pos hb, bind_ok _ _ _ _ _ (skip_append' 2 _ _ (be_length' _ _)), pure_run]
+  · rw [if_neg hb, if_neg hb, if_neg hb, List.nil_append, pure_run]
+
+theorem encTObject_length (version uid bits pidf : Nat) :
+    (encTObject version uid bits pidf).length = tobjLen bits := by
+  unfold encTObject tobjLen
+  by_cases hb : bits &&& kIsReferenced ≠ 0
+  · rw [if_pos hb, if_pos hb]
+    simp only [List.length_append, be_length']
+  · rw [if_neg hb, if_neg hb]
+    simp only [List.length_append, be_length', List.length_nil]
+
+/-- header part: object header, byte-count word, class-version word, TObject (abstract words) -/
+theorem readCluster_words (ver : Option Nat) (v t : Nat) (hdr w s T tail : List Nat)
+    (hh : ∀ r, skipObjHeader.run (hdr ++ r) = some ((), r))
     (hw : w.length = 4) (hm : beVal w &&& kByteCountMask ≠ 0) (hs : s.length = 2)
-    (hd : decideVersion ver (beVal w - kByteCountMask) = pure v) :
-    (readCluster ver).run (hdr ++ (w ++ (s ++ tail))) = (clusterTail v).run tail := by
-  rw [readCluster_eq, bind_ok _ _ _ _ _ hh, bind_ok _ _ _ _ _ (readNBytes_words w _ hw hm),
-    bind_ok _ _ _ _ _ (skip_append' 2 s _ hs), hd]
+    (hT : ∀ r, skipTObjectLen.run (T ++ r) = some (t, r))
+    (hd : decideVersion ver (beVal w - kByteCountMask) t = pure v) :
+    (readCluster ver).run (hdr ++ (w ++ (s ++ (T ++ tail)))) = (clusterMembers v).run tail := by
+  rw [readCluster_eq, bind_ok _ _ _ _ _ (hh _), bind_ok _ _ _ _ _ (readNBytes_words w _ hw hm),
+    bind_ok _ _ _ _ _ (skip_append' 2 s _ hs), bind_ok _ _ _ _ _ (hT _), hd]
   rfl
 
-/-- member part, for abstract TObject bytes and member arrays split as the reader splits them -/
-theorem clusterTail_words (v : Nat) (T ints d1 dy d2 cf st rest : List Nat)
-    (hT : ∀ r, skipTObject.run (T ++ r) = some ((), r))
+/-- member part, for member arrays split as the reader splits them -/
+theorem clusterMembers_words (v : Nat) (ints d1 dy d2 cf st rest : List Nat)
     (hi : ints.length = 5) (hib : ∀ x ∈ ints, x < 4294967296)
     (h1 : d1.length = 2) (h1b : ∀ x ∈ d1, x < 18446744073709551616)
     (hy : dy.length = if v = 0 then 1 else 0) (hyb : ∀ x ∈ dy, x < 18446744073709551616)
     (h2 : d2.length = 2) (h2b : ∀ x ∈ d2, x < 18446744073709551616)
     (hc : cf.length = 2) (hcb : ∀ x ∈ cf, x < 4294967296)
     (hs : st.length = 4) (hsb : ∀ x ∈ st, x < 4294967296) :
-    (clusterTail v).run (T ++ (ints.flatMap (be 4) ++ (d1.flatMap (be 8) ++ (dy.flatMap (be 8) ++
-      (d2.flatMap (be 8) ++ (cf.flatMap (be 4) ++ (st.flatMap (be 4) ++ rest))))))) =
+    (clusterMembers v).run (ints.flatMap (be 4) ++ (d1.flatMap (be 8) ++ (dy.flatMap (be 8) ++
+      (d2.flatMap (be 8) ++ (cf.flatMap (be 4) ++ (st.flatMap (be 4) ++ rest)))))) =
       some (({ ints := ints, doubles := d1 ++ dy ++ d2, clusterFlag := cf, stripID := st }, v), rest) := by
   have hdy : ∀ r, (if v = 0 then times u64 1 else pure []).run (dy.flatMap (be 8) ++ r) = some (dy, r) := by
     intro r
@@ -124,7 +162,7 @@ theorem clusterTail_words (v : Nat) (T ints d1 dy d2 cf st rest : List Nat)
       have : dy = [] := List.eq_nil_of_length_eq_zero hy
       subst this
       rfl
-  rw [clusterTail_eq, bind_ok _ _ _ _ _ (hT _),
+  rw [clusterMembers_eq,
     bind_ok _ _ _ _ _ (times_u32_flatMap 5 ints _ hi hib),
     bind_ok _ _ _ _ _ (times_u64_flatMap 2 d1 _ h1 h1b),
     bind_ok _ _ _ _ _ (hdy _),
@@ -136,14 +174,14 @@ theorem clusterTail_words (v : Nat) (T ints d1 dy d2 cf st rest : List Nat)
 
 theorem ClusterEnc.wf_iff (v : Nat) (c : ClusterEnc) (hw : c.wf v = true) :
     c.hdr.wf = true ∧ c.clsVersion < 65536 ∧ c.tVersion < 65536 ∧ c.uid < 4294967296 ∧
-      c.bits < 4294967296 ∧ c.pidf < 65536 ∧ c.bits &&& kIsReferenced = 0 ∧
+      c.bits < 4294967296 ∧ c.pidf < 65536 ∧
       c.value.ints.length = 5 ∧ (∀ x ∈ c.value.ints, x < 4294967296) ∧
       c.value.doubles.length = nDoubles v ∧ (∀ x ∈ c.value.doubles, x < 18446744073709551616) ∧
       c.value.clusterFlag.length = 2 ∧ (∀ x ∈ c.value.clusterFlag, x < 4294967296) ∧
       c.value.stripID.length = 4 ∧ (∀ x ∈ c.value.stripID, x < 4294967296) := by
   simp only [ClusterEnc.wf, Bool.and_eq_true, decide_eq_true_eq, List.all_eq_true] at hw
-  obtain ⟨⟨⟨⟨⟨⟨⟨⟨⟨⟨⟨⟨⟨⟨h1, h2⟩, h3⟩, h4⟩, h5⟩, h6⟩, h7⟩, h8⟩, h9⟩, h10⟩, h11⟩, h12⟩, h13⟩, h14⟩, h15⟩ := hw
-  exact ⟨h1, h2, h3, h4, h5, h6, h7, h8, h9, h10, h11, h12, h13, h14, h15⟩
+  obtain ⟨⟨⟨⟨⟨⟨⟨⟨⟨⟨⟨⟨⟨h1, h2⟩, h3⟩, h4⟩, h5⟩, h6⟩, h8⟩, h9⟩, h10⟩, h11⟩, h12⟩, h13⟩, h14⟩, h15⟩ := hw
+  exact ⟨h1, h2, h3, h4, h5, h6, h8, h9, h10, h11, h12, h13, h14, h15⟩
 
 theorem CgemEntryEnc.wf_iff (v : Nat) (e : CgemEntryEnc) (hw : e.wf v = true) :
     e.hdr.wf = true ∧ e.arr.wf = true ∧ e.clusters.length < 4294967296 ∧
@@ -153,43 +191,47 @@ theorem CgemEntryEnc.wf_iff (v : Nat) (e : CgemEntryEnc) (hw : e.wf v = true) :
 
 /-! ### byte count of the cluster body -/
 
-/-- the byte count the class layout dictates when the TObject is not referenced -/
-def clusterNBytes (v : Nat) : Nat := if v = 0 then 96 else 88
+/-- the true byte count of a cluster object: class version + TObject + members -/
+def clusterNBytes (v bits : Nat) : Nat := 2 + tobjLen bits + memberBytes v
 
-theorem clusterNBytes_lt (v : Nat) : clusterNBytes v < kByteCountMask := by
-  unfold clusterNBytes
-  split <;> decide
-
-theorem encTObject_unref (version uid bits pidf : Nat) (h : bits &&& kIsReferenced = 0) :
-    encTObject version uid bits pidf = be 2 version ++ be 4 uid ++ be 4 bits := by
-  unfold encTObject
-  rw [if_neg (fun hn => hn h), List.append_nil]
+theorem clusterNBytes_lt (v bits : Nat) : clusterNBytes v bits < kByteCountMask := by
+  have hm : kByteCountMask = 1073741824 := rfl
+  unfold clusterNBytes tobjLen memberBytes
+  rw [hm]
+  split <;> split <;> omega
 
 theorem encClusterBody_length (v : Nat) (c : ClusterEnc) (hw : c.wf v = true) :
-    (encClusterBody v c).length = clusterNBytes v := by
-  obtain ⟨_, _, _, _, _, _, hnr, hi, _, hd, _, hc, _, hs, _⟩ := ClusterEnc.wf_iff v c hw
+    (encClusterBody v c).length = clusterNBytes v c.bits := by
+  obtain ⟨_, _, _, _, _, _, hi, _, hd, _, hc, _, hs, _⟩ := ClusterEnc.wf_iff v c hw
   unfold encClusterBody
-  rw [encTObject_unref _ _ _ _ hnr]
   simp only [List.length_append, be_length', length_flatMap_be, List.length_take, hi, hd, hc, hs,
-    Nat.min_self]
-  unfold clusterNBytes nDoubles
-  split <;> rfl
+    Nat.min_self, encTObject_length]
+  unfold clusterNBytes memberBytes nDoubles
+  split <;> omega
+
+/-- the serialised cluster with its byte-count word spelled out and everything right-nested -/
+theorem encCluster_shape (v : Nat) (c : ClusterEnc) (hw : c.wf v = true) (rest : List Nat) :
+    encCluster v c ++ rest = encObjHdr c.hdr ++ (be 4 (clusterNBytes v c.bits + kByteCountMask) ++
+      (be 2 c.clsVersion ++ (encTObject c.tVersion c.uid c.bits c.pidf ++ (c.value.ints.flatMap (be 4) ++
+        ((c.value.doubles.take (nDoubles v)).flatMap (be 8) ++ (c.value.clusterFlag.flatMap (be 4) ++
+          (c.value.stripID.flatMap (be 4) ++ rest))))))) := by
+  unfold encCluster
+  rw [encClusterBody_length v c hw]
+  simp only [encClusterBody, List.append_assoc]
 
 /-! ### one cluster -/
 
-theorem clusterTail_enc (v : Nat) (hv : v = 0 ∨ v = 1) (c : ClusterEnc) (hw : c.wf v = true)
+theorem clusterMembers_enc (v : Nat) (hv : v = 0 ∨ v = 1) (c : ClusterEnc) (hw : c.wf v = true)
     (rest : List Nat) :
-    (clusterTail v).run (encTObject c.tVersion c.uid c.bits c.pidf ++ (c.value.ints.flatMap (be 4) ++
+    (clusterMembers v).run (c.value.ints.flatMap (be 4) ++
       ((c.value.doubles.take (nDoubles v)).flatMap (be 8) ++ (c.value.clusterFlag.flatMap (be 4) ++
-        (c.value.stripID.flatMap (be 4) ++ rest))))) = some ((c.value, v), rest) := by
-  obtain ⟨_, _, ht, hu, hb, hp, _, hi, hib, hd, hdb, hc, hcb, hs, hsb⟩ := ClusterEnc.wf_iff v c hw
+        (c.value.stripID.flatMap (be 4) ++ rest)))) = some ((c.value, v), rest) := by
+  obtain ⟨_, _, _, _, _, _, hi, hib, hd, hdb, hc, hcb, hs, hsb⟩ := ClusterEnc.wf_iff v c hw
   obtain ⟨hdr, cv, tv, uid, bits, pidf, ⟨ints, doubles, cf, st⟩⟩ := c
-  simp only at ht hu hb hp hi hib hd hdb hc hcb hs hsb ⊢
-  have hT : ∀ r, skipTObject.run (encTObject tv uid bits pidf ++ r) = some ((), r) :=
-    fun r => skipTObject_enc tv uid bits pidf r ht hu hb hp
+  simp only at hi hib hd hdb hc hcb hs hsb ⊢
   rcases hv with rfl | rfl
   · obtain ⟨a, b, c, d, e, rfl⟩ := list_len5 doubles hd
-    have key := clusterTail_words 0 _ ints [a, b] [c] [d, e] cf st rest hT hi hib rfl
+    have key := clusterMembers_words 0 ints [a, b] [c] [d, e] cf st rest hi hib rfl
       (fun x hx => hdb x (by simp only [List.mem_cons, List.not_mem_nil, or_false] at hx ⊢; omega)) rfl
       (fun x hx => hdb x (by simp only [List.mem_cons, List.not_mem_nil, or_false] at hx ⊢; omega)) rfl
       (fun x hx => hdb x (by simp only [List.mem_cons, List.not_mem_nil, or_false] at hx ⊢; omega))
@@ -198,7 +240,7 @@ theorem clusterTail_enc (v : Nat) (hv : v = 0 ∨ v = 1) (c : ClusterEnc) (hw : 
     rw [e5, List.flatMap_append, List.flatMap_append, List.append_assoc, List.append_assoc]
     exact key
   · obtain ⟨a, b, c, d, rfl⟩ := list_len4 doubles hd
-    have key := clusterTail_words 1 _ ints [a, b] [] [c, d] cf st rest hT hi hib rfl
+    have key := clusterMembers_words 1 ints [a, b] [] [c, d] cf st rest hi hib rfl
       (fun x hx => hdb x (by simp only [List.mem_cons, List.not_mem_nil, or_false] at hx ⊢; omega)) rfl
       (fun x hx => absurd hx List.not_mem_nil) rfl
       (fun x hx => hdb x (by simp only [List.mem_cons, List.not_mem_nil, or_false] at hx ⊢; omega))
@@ -210,21 +252,19 @@ theorem clusterTail_enc (v : Nat) (hv : v = 0 ∨ v = 1) (c : ClusterEnc) (hw : 
 theorem readCluster_enc (v : Nat) (hv : v = 0 ∨ v = 1) (c : ClusterEnc) (hw : c.wf v = true)
     (ver : Option Nat) (hver : ver = none ∨ ver = some v) (rest : List Nat) :
     (readCluster ver).run (encCluster v c ++ rest) = some ((c.value, v), rest) := by
-  have hh := (ClusterEnc.wf_iff v c hw).1
-  have hL := encClusterBody_length v c hw
-  have hlt := clusterNBytes_lt v
-  have hval : beVal (be 4 (clusterNBytes v + kByteCountMask)) - kByteCountMask = clusterNBytes v := by
+  obtain ⟨hh, _, ht, hu, hb, hp, _⟩ := ClusterEnc.wf_iff v c hw
+  have hlt := clusterNBytes_lt v c.bits
+  have hval : beVal (be 4 (clusterNBytes v c.bits + kByteCountMask)) - kByteCountMask =
+      clusterNBytes v c.bits := by
     rw [beVal_be' 4 _ (by rw [pow256_4]; exact mask_lt _ hlt), mask_sub]
-  have hnb : (v = 0 ∧ clusterNBytes v = 96) ∨ (v = 1 ∧ clusterNBytes v = 88) := by
-    rcases hv with rfl | rfl
-    · exact Or.inl ⟨rfl, rfl⟩
-    · exact Or.inr ⟨rfl, rfl⟩
-  unfold encCluster
-  rw [hL]
-  simp only [encClusterBody, List.append_assoc]
-  rw [readCluster_words ver v _ _ _ _ (skipObjHeader_enc c.hdr _ hh) (be_length' _ _)
-    (beVal_mask _ hlt) (be_length' _ _) (by rw [hval]; exact decideVersion_ok ver v _ hver hnb)]
-  exact clusterTail_enc v hv c hw rest
+  have hd : decideVersion ver
+      (beVal (be 4 (clusterNBytes v c.bits + kByteCountMask)) - kByteCountMask) (tobjLen c.bits) = pure v := by
+    rw [hval]; exact decideVersion_ok ver v _ _ hv hver rfl
+  rw [encCluster_shape v c hw rest,
+    readCluster_words ver v (tobjLen c.bits) _ _ _ _ _ (fun r => skipObjHeader_enc c.hdr r hh)
+      (be_length' _ _) (beVal_mask _ hlt) (be_length' _ _)
+      (fun r => skipTObjectLen_enc c.tVersion c.uid c.bits c.pidf r ht hu hb hp) hd]
+  exact clusterMembers_enc v hv c hw rest
 
 /-! ### several clusters -/
 
@@ -339,5 +379,20 @@ theorem allEmpty_false_of_mem (events : List CgemEntryEnc) (e : CgemEntryEnc) (h
     unfold allEmpty at h
     rw [List.all_eq_true] at h
     exact absurd (List.isEmpty_iff.1 (h e he)) hne
+
+theorem cgemBasketKeys_enc (v : Nat) (hv : v = 0 ∨ v = 1) (events : List CgemEntryEnc)
+    (hw : ∀ e ∈ events, e.wf v = true) :
+    cgemBasketKeys (events.map (encCgemEntry v)) =
+      some (cgemDataKeys (if allEmpty events then none else some v)) := by
+  unfold cgemBasketKeys cgemBasket
+  rw [readCgemEntries_enc v hv events hw none (Or.inl rfl)]
+  rfl
+
+theorem cgemDataKeys_ite_one (b : Bool) : cgemDataKeys (if b then none else some 1) = cgemDataKeys none := by
+  cases b <;> rfl
+
+theorem ite_allEmpty_false (events : List CgemEntryEnc) (v : Nat) (h : allEmpty events = false) :
+    (if allEmpty events then none else some v) = some v := by
+  rw [h]; rfl
 
 end Pybes3Verif.Root
